@@ -507,6 +507,8 @@ enum Call {
     Grant(usize, usize),
     Revoke(usize, usize),
     SetRoleAdmin(usize),
+    /// the controller gives up administering itself: afterwards no administrative call can pass
+    RenounceAdmin,
     Bump(u32),
 }
 const ROLES: [&str; 3] = ["proposer", "canceller", "executor"];
@@ -529,6 +531,7 @@ struct Long {
     min_delay: u32,
     counts: [u32; 3],
     ops: std::vec::Vec<MOp>,
+    admin_alive: bool,
 }
 
 impl Long {
@@ -539,6 +542,7 @@ impl Long {
             Call::Grant(a, r) => (self.su.c.clone(), "grant_role", args!(e, self.acc[*a], Symbol::new(e, ROLES[*r]), self.su.c)),
             Call::Revoke(a, r) => (self.su.c.clone(), "revoke_role", args!(e, self.acc[*a], Symbol::new(e, ROLES[*r]), self.su.c)),
             Call::SetRoleAdmin(r) => (self.su.c.clone(), "set_role_admin", args!(e, Symbol::new(e, ROLES[*r]), Symbol::new(e, "boss"))),
+            Call::RenounceAdmin => (self.su.c.clone(), "renounce_admin", args!(e)),
             Call::Bump(k) => (self.target.clone(), "bump", args!(e, *k)),
         }
     }
@@ -572,6 +576,10 @@ impl Long {
         }
     }
     fn random_call(&self, rng: &mut Rng) -> Call {
+        match rng.idx(40) {
+            39 => return Call::RenounceAdmin,
+            _ => {}
+        }
         match rng.idx(10) {
             0 | 1 => Call::Delay(*rng.pick(&[0u32, 1, 3, 5, 9])),
             2 | 3 | 4 => Call::Grant(rng.idx(4), rng.idx(3)),
@@ -592,6 +600,8 @@ impl Long {
                 format!("after {after}: operation #{i} {:?} salt {} is in state {got}, model says {want} (0 unset, 1 waiting, 2 ready, 3 done); ready ledger {} now {}", self.ops[i].call, self.ops[i].salt, self.ops[i].ready, self.su.w.ledger())
             });
         }
+        let adm: Option<Address> = invoke(e, &self.su.c, "get_admin", args!(e)).must("get_admin");
+        ok &= rep.check("ref", adm == if self.admin_alive { Some(self.su.c.clone()) } else { None }, "C09/ref/long/admin", || format!("after {after}: get_admin = {adm:?}, model: the controller itself, alive = {}", self.admin_alive));
         let d: u32 = invoke(e, &self.su.c, "get_min_delay", args!(e)).must("get_min_delay");
         ok &= rep.check("ref", d == self.min_delay, "C09/ref/long/min-delay", || format!("after {after}: minimum delay {d}, model {}", self.min_delay));
         for a in 0..4 {
@@ -614,7 +624,7 @@ fn long_history(rep: &mut Report, rng: &mut Rng, h: u64, steps: usize) {
     let su = setup(with_exec, 100);
     let acc = [su.p.clone(), su.x.clone(), su.nx.clone(), su.s.clone()];
     let target = su.w.env.register(CountTarget, ());
-    let mut m = Long { su, acc, target, has: [[false; 3]; 4], min_delay: 5, counts: [0; 3], ops: vec![] };
+    let mut m = Long { su, acc, target, has: [[false; 3]; 4], min_delay: 5, counts: [0; 3], ops: vec![], admin_alive: true };
     m.has[0][0] = true;
     m.has[0][1] = true;
     m.has[1][2] = with_exec;
@@ -684,7 +694,7 @@ fn long_history(rep: &mut Report, rng: &mut Rng, h: u64, steps: usize) {
             } else {
                 (m.random_call(rng), zero.clone(), 1 + rng.idx(3) as u8)
             };
-            let shape = *rng.pick(&["proper", "proper", "proper", "proper", "proper", "proper", "wrong_salt", "wrong_pred", "empty", "two", "no_entry"]);
+            let shape = *rng.pick(&["proper", "proper", "proper", "proper", "proper", "proper", "wrong_salt", "wrong_pred", "empty", "two", "no_entry", "void_signature", "number_signature"]);
             match shape {
                 "wrong_salt" => msalt = 1 + (msalt % 3),
                 "wrong_pred" => mpred = if mpred == zero { unknown.clone() } else { zero.clone() },
@@ -753,7 +763,12 @@ fn long_history(rep: &mut Report, rng: &mut Rng, h: u64, steps: usize) {
                     _ => None,
                 };
                 let st0 = op_state(&m.su, &id_obs);
-                let auth = build_auth(&m.su, f, &a, metas.as_deref(), exec_entry);
+                let mut auth = build_auth(&m.su, f, &a, metas.as_deref(), exec_entry);
+                // a signature that is not a descriptor list at all
+                if shape == "void_signature" || shape == "number_signature" {
+                    let sig = if shape == "void_signature" { ScVal::Void } else { ScVal::U32(5) };
+                    auth[0] = m.su.w.entry(&m.su.c, &Inv::new(&m.su.c, f, a.clone()), sig);
+                }
                 e.set_auths(&auth);
                 m.su.w.reset_budget();
                 let got: Result<Val, Fail> = invoke(&e, &m.su.c, f, a.clone());
@@ -763,7 +778,7 @@ fn long_history(rep: &mut Report, rng: &mut Rng, h: u64, steps: usize) {
                     Call::Revoke(a, r) => m.has[a][r],
                     _ => true,
                 };
-                let want = one_meta && op_ok && exec_ok && effect_valid;
+                let want = one_meta && op_ok && exec_ok && effect_valid && m.admin_alive;
                 what = format!("{call:?} with descriptor {shape} (pred={} salt={msalt}) executor={xj:?} signed={xsigned} executors_configured={} -> {} (state {st0}->{st1})", if mpred == zero { "none" } else { "some" }, m.executors_configured(), tag(&got));
                 rep.op(format!("[{step}] L{} {what}", m.su.w.ledger()));
                 rep.case(format!("long/admin/{f}/{shape}/op_ok={op_ok}/exec_ok={exec_ok}/valid={effect_valid}/{}", got.is_ok()));
@@ -782,6 +797,10 @@ fn long_history(rep: &mut Report, rng: &mut Rng, h: u64, steps: usize) {
                         Call::Delay(d) => m.min_delay = d,
                         Call::Grant(a, r) => m.has[a][r] = true,
                         Call::Revoke(a, r) => m.has[a][r] = false,
+                        Call::RenounceAdmin => {
+                            m.admin_alive = false;
+                            rep.count("long_admin_renounced");
+                        }
                         _ => {}
                     }
                     rep.count("long_admin_ok");
